@@ -100,6 +100,39 @@ class Ctx:
             raise Infra("TLC failed on the committed spec: %s %s\n%s" % (module, cfg, out[-3000:]))
         return rec, out
 
+    # ------------------------------------------------------------------ Apalache (unbounded inductive checks of small specs)
+    def apalache(self, module, args, expect_error=False, timeout=300, label=None):
+        """apalache-mc check <args> <module>.tla in the scratch copy of spec/.  Spec-only: an unexpected outcome is a
+        specification bug (Infra), a missing tool or a timeout is recorded and skipped -- never a verdict about the code."""
+        exe = shutil.which("apalache-mc")
+        rec = dict(module=module, args=" ".join(args), label=label or module, tool="apalache")
+        if not exe:
+            rec["outcome"] = "skipped: apalache-mc not on PATH"
+            self.extra.setdefault("apalache_runs", []).append(rec)
+            return rec
+        out_dir = tempfile.mkdtemp(prefix="apa-", dir=self.scratch)
+        t = time.time()
+        try:
+            p = subprocess.run([exe, "check", "--out-dir=" + out_dir] + list(args) + [module + ".tla"], cwd=self.specdir,
+                               stdout=subprocess.PIPE, stderr=subprocess.STDOUT, text=True, timeout=timeout)
+        except subprocess.TimeoutExpired:
+            rec["outcome"] = "skipped: timeout after %ds" % timeout
+            self.extra.setdefault("apalache_runs", []).append(rec)
+            return rec
+        finally:
+            shutil.rmtree(out_dir, ignore_errors=True)
+        ok = "The outcome is: NoError" in p.stdout
+        err = "The outcome is: Error" in p.stdout
+        rec.update(outcome="NoError" if ok else ("Error" if err else "other"), wall_s=round(time.time() - t, 2))
+        self.extra.setdefault("apalache_runs", []).append(rec)
+        log("[apa] %-60s %s %.1fs" % (rec["label"], rec["outcome"], rec["wall_s"]))
+        if expect_error:
+            if not err:
+                raise Infra("model drift: Apalache was expected to find a counterexample: %s %s\n%s" % (module, rec["args"], p.stdout[-1500:]))
+        elif not ok:
+            raise Infra("Apalache failed on the committed spec: %s %s\n%s" % (module, rec["args"], p.stdout[-2500:]))
+        return rec
+
     # ------------------------------------------------------------------ files written by CSVWrite
     @staticmethod
     def unquote(path, dst=None):
